@@ -1,16 +1,63 @@
-import PcfgVerif.Model.Loader
-import PcfgVerif.Model.CheckValid
+import PcfgVerif.Properties.LoaderCore
 /-!
 # C07 — a saved ruleset means the same thing to every tool that loads it
-(round-trip theorems `loadFromFile_writeFile` / `scorerLoad_writeFile` are added when proved)
+
+`writeFile` is the trainer's writer (`value<TAB>str(prob)<NL>` per item); `loadFromFile` the guesser's
+loader, `scorerLoad` the scorer's.  The table of code points `check_valid` rejects is generated from
+its source; the table of line boundaries (`pyLineSeps`) and of whitespace (`pySpaces`) is compared
+with the running interpreter over all code points on every run.  Codec internals are runtime.
 -/
 namespace Pcfg.C07
+variable {P : Type}
 
-/-- every line boundary of `str.splitlines` and the TAB are rejected by `check_valid`
-(the table is generated from its source; the boundary list is validated against the interpreter) -/
+/-- every line boundary of `str.splitlines` and the TAB are rejected by `check_valid` -/
 theorem C07_separators_rejected :
     (∀ c ∈ pyLineSeps, Generated.CheckValid.rejected.contains c = true) ∧
     Generated.CheckValid.rejected.contains 0x09 = true ∧ Generated.CheckValid.rejectEmpty = true := by
   decide
+
+/-- no password accepted for training can put a value on disk that the line-oriented format cannot
+return unchanged: an accepted password is non-empty and free of line boundaries and TABs (and so is
+every substring of it) -/
+theorem C07_accepted_is_clean (v : CPs) (h : checkValid v = true) (hs : ∀ c ∈ v, isSurrogate c = false) :
+    CleanValue v ∧ v ≠ [] :=
+  checkValid_clean v h hs
+
+/-- the guesser's loader reads back every written value, in order, each in a group carrying the
+probability written next to it; groups are the maximal runs of equal probability; the error-recovery
+branch is never taken (leading / trailing spaces of a value survive: `rstrip` only ever removes
+characters after the probability field) -/
+theorem C07_guesser_roundtrip (parseP : CPs → Option P) (eqv : P → P → Bool) (neg1 : P)
+    (heq_refl : ∀ a, eqv a a = true)
+    (heq_symm : ∀ a b, eqv a b = true → eqv b a = true)
+    (heq_trans : ∀ a b c, eqv a b = true → eqv b c = true → eqv a c = true)
+    (items : List (CPs × CPs))
+    (hc : ∀ it ∈ items, CleanValue it.1 ∧ CleanProb it.2)
+    (hp : ∀ it ∈ items, ∃ p, parseP it.2 = some p ∧ eqv p neg1 = false) :
+    ∃ gs, loadFromFile parseP eqv neg1 (writeFile items) = some gs ∧
+      gs.flatMap (·.values) = items.map (·.1) ∧
+      (∀ g ∈ gs, g.values ≠ []) ∧
+      (∀ (i : Nat) (a : CPs × P) (it : CPs × CPs),
+        (gs.flatMap fun g => g.values.map fun v => (v, g.prob))[i]? = some a → items[i]? = some it →
+          a.1 = it.1 ∧ ∃ p, parseP it.2 = some p ∧ eqv p a.2 = true) ∧
+      (∀ (i : Nat), ∀ g1 g2, gs[i]? = some g1 → gs[i + 1]? = some g2 → eqv g2.prob g1.prob = false) :=
+  loadFromFile_writeFile parseP eqv neg1 heq_refl heq_symm heq_trans items hc hp
+
+/-- the scorer's loader reads back exactly the written (value, probability) pairs -/
+theorem C07_scorer_roundtrip (parseP : CPs → Option P) (items : List (CPs × CPs))
+    (hc : ∀ it ∈ items, CleanValue it.1 ∧ CleanProb it.2)
+    (hp : ∀ it ∈ items, (parseP it.2).isSome) :
+    scorerLoad parseP (writeFile items) =
+      some (items.filterMap fun it => (parseP it.2).map fun p => (it.1, p)) :=
+  scorerLoad_writeFile parseP items hc hp
+
+/-- the reader's view of a written file is the written lines (no value can split a line) -/
+theorem C07_lines (items : List (CPs × CPs)) (hc : ∀ it ∈ items, CleanValue it.1 ∧ CleanProb it.2) :
+    codecLines (writeFile items) = items.map fun it => writeLine it.1 it.2 :=
+  codecLines_writeFile items hc
+
+/-- non-vacuity: a value with a trailing space, two values sharing a probability -/
+example : loadFromFile Pcfg.exParse Pcfg.exEqv (-1) (writeFile Pcfg.exItems) =
+    some [⟨[[97, 98, 32], [99]], 50⟩, ⟨[[100]], 25⟩] := by rfl
 
 end Pcfg.C07
